@@ -305,3 +305,58 @@ def check_c12(tier, t0):
 
 
 CHECKS["C12"] = check_c12
+
+
+# ------------------------------------------------------------------------------------------------
+# C13  validation entry points
+# ------------------------------------------------------------------------------------------------
+def check_c13(tier, t0):
+    from common import run_tlc, tlc_require_clean, workdir
+    wd = workdir("C13-%s" % tier)
+    mc = run_tlc("Validate.tla", "Validate_thorough.cfg" if tier == "thorough" else "Validate.cfg", wd, timeout=1500)
+    if mc["violated"]:
+        raise ToolError("design-level invariant %s violated in Validate.tla" % mc["violated"])
+    tlc_require_clean(mc, "Validate")
+    os.remove(mc["out_path"])
+    walks, nw, mcw = gen_walks(wd, tier)
+    traces = os.path.join(wd, "traces.ndjson")
+    out = os.path.join(wd, "out.json")
+    args = ["validate", "--walks", walks, "--traces", traces, "--out", out, "--policies", "3" if tier == "thorough" else "2"]
+    rule_texts = os.path.join(common_work(), "C04-%s" % tier, "rule_messages.ndjson")
+    if os.path.exists(rule_texts):
+        args += ["--texts", rule_texts]
+    run_harness(args)
+    s = json.load(open(out))
+    tv = msglevel.validate_traces(wd, traces, cfg="ValidateTrace.cfg", module="ValidateTrace.tla")
+    texts = {t["id"]: t for t in s["texts"]}
+    vio = list(s["violations"])
+    for r in tv["results"]:
+        t = texts.get(r["id"], {})
+        vio.append({"sig": "C13|MT%s|%s" % (r["mt"], "+".join(sorted(r["dev"]))),
+                    "replay": {"kind": "validate", "mt": r["mt"], "text": t.get("text")}})
+    log("[C13] %d messages (%d with errors, %d with several), %d call-history lines explained, %d flagged" %
+        (s["messages"], s["with_errors"], s["with_several_errors"], tv["lines"], len(tv["results"])))
+    cov = {
+        "states": mc["distinct"] + mcw["distinct"] + tv["states"],
+        "transitions": mc["generated"] + mcw["generated"] + tv["generated"],
+        "traces_validated_against_impl": s["messages"],
+        "trace_events_explained": tv["lines"],
+        "evaluations": s["messages"], "distinct_nontrivial": s["with_errors"],
+        "rule": "every unmutated layout walk (x content policies) of all 30 types%s; per message a history of 7 validation calls "
+                "(both modes twice, message-level, wrapper, plugin) in one of 6 orders; non-trivial = the message violates at least "
+                "one network rule" % (" plus the C04 rule-enumeration messages" if os.path.exists(rule_texts) else ""),
+        "samples": s["samples"] or [{"note": "no message with several errors"}],
+        "messages_with_several_errors": s["with_several_errors"],
+        "exhaustive": False,
+    }
+    assumptions = ["error values are compared as (code, field, rendered text)",
+                   "the plugin verdict is compared on validity and error count (it renders errors differently)"]
+    return report("C13", tier, "model_checking", vio, cov, assumptions, t0)
+
+
+def common_work():
+    import common
+    return common.WORK
+
+
+CHECKS["C13"] = check_c13
